@@ -37,9 +37,10 @@ type scen struct {
 	W      []tstep `json:"workers"`
 	KeyMax []int   `json:"key_max"`
 	// Level of boundaries: 0 = Storage.Get/Set, MaxFunc, KeyGenerator, handler entry and exit;
-	// 1 = Storage.Get/Set and handler entry; 2 = Storage.Get/Set only (every order of storage
-	// operations is still reached; only the instants at which handler entry / exit are stamped
-	// vary less). Coarser levels make three workers exhaustible.
+	// 1 = Storage.Get/Set and handler entry; 2 = Storage.Get/Set only. Coarser levels make three
+	// workers exhaustible. At level 2 a worker runs from the Set of its acquire through the handler
+	// to the Get of its take-back without a boundary, so two take-backs never overlap there: the
+	// handler-entry boundary of level 1 is what lets a second request be counted in between.
 	Level   int `json:"boundary_level"`
 	workers string
 }
@@ -100,7 +101,7 @@ func genScen(r *gen.Rand, nw int) *scen {
 		sc.W = append(sc.W, mk(k))
 	}
 	if nw >= 3 {
-		sc.Level = r.Range(1, 2)
+		sc.Level = r.PickW(0, 2, 1)
 	}
 	return sc
 }
